@@ -88,6 +88,17 @@ CLAIMED = {
         note="Lean kernel; standard axioms; per-backend cursor code abstracted to a zipper (correspondence only).",
         technique="Lean 4 proof (zipper invariant + termination measure) + differential correspondence",
         design="6/C11"),
+    "C19": dict(
+        category="proof",
+        text="Lean theorems over the hand model of to_sax composed with the proved walker (C11): for every tree whose void "
+             "elements are childless the adapter never raises and its event list is startDocument, the extracted prefix "
+             "mappings, exactly the recursive SAX rendering of the tree (elements with namespace and attributes, text in "
+             "document order; comments/doctype omitted), the prefixes ended, endDocument; the element events are well nested "
+             "(stack discipline); every adjusted foreign attribute has a qualified name (kernel-decided on the extracted "
+             "tables). Model tied by op sax with a recording ContentHandler; rebuild-from-events checked on the real code.",
+        note="Lean kernel; standard axioms; hand model of to_sax; xml.sax AttributesNSImpl semantics assumed.",
+        technique="Lean 4 proof (composition with C11) + differential correspondence",
+        design="6/C19"),
 }
 
 PENDING_REASON = "check under construction in this round: model/theorems not yet committed (see DESIGN section 8); not claimed"
